@@ -43,6 +43,10 @@ def variants(doc, rng):
     out.append(('CR', lf.replace('\n', '\r')))
     out.append(('mixed', ''.join(l_ + ['\n', '\r\n', '\r'][i_ % 3] for i_, l_ in enumerate(ls_[:-1]))))
     out.append(('LF-trailing-blank-lines', lf + '\n\n'))
+    # a text whose first character is U+FEFF (what an editor's "UTF-8 with BOM" leaves in front): a character of the text like any
+    # other - whatever loads makes of it (it refuses: '\ufeff**kern' is no header), load makes the same of the file with these bytes
+    out.append(('leading-U+FEFF', '\ufeff' + lf))
+    out.append(('leading-blank-line-and-U+FEFF', '\n\ufeff' + lf))
     return out
 
 
